@@ -17,11 +17,22 @@
     with positive orders, same atoms, same elements: balanced and mapped) and [no_explicit_H G] (the "none explicit"
     branch of the precondition: every implicit-mode reaction of the corpora has no hydrogen atom at all).
 
-    NOT covered by a theorem (correspondence + oracle only, see TESTED_NOT_PROVED in harness/props/C04.py): the
-    "all centre hydrogens explicit" branch (default mode: _strip_explicit_h, hydrogen expansion, _explicit_h). *)
+    Map of the file (41 theorems).  Implicit mode, identity match: C04_consistent_H, C04_identity_match, C04_identity_glue,
+    C04_centre_refuted / C04_centre_exact (what a centre cannot express: the 114 known findings).  Any rule in either mode:
+    C04_identity_glue_any_rule(_symmetric).  Default mode: C04_identity_glue_default, C04_identity_match_default,
+    C04_explicit_h_keeps_reaction, C04_explicit_h_total_criterion, C04_any_match_explicit_h_total, C04_identity_default_end(_total).
+    Engine (C06) and pruning (C11): C04_identity_among_raw, C04_pruned_results, C04_canonical_codes_faithful,
+    C04_engine_match_is_rule_match, C04_in_results_partial / _symmetric (any kept list).  The reactor OBJECT: C04_in_results_engine_partial
+    (implicit), C04_in_results_engine_default (default; _default_partial is its earlier form with one more premise),
+    C04_in_results_verified_{implicit,default} (no VF2 premise), C04_smarts_contains, C04_reads_coherent, C04_stale_after_crash,
+    C04_reverse_reaction.  Strategies comp / bt: C04_comp_bt_refuted, C04_{comp,bt}_regenerates_partial, C04_separating_boolean,
+    C04_own_{comp,bt}_{implicit,default}(_object).
+    NOT covered by a theorem (correspondence + oracle only, see TESTED_NOT_PROVED in harness/props/C04.py): the H2 / H+ explicit
+    re-match path of the default mode; RDKit parsing / serialisation and Standardize.fit. *)
 From Coq Require Import List NArith ZArith Bool Permutation.
 From SK Require Import lib.Mono model.C06_Model lib.C06_Spec model.C11_Model.
-From SK Require Import lib.Tok lib.LGraph model.C03_Model model.C04_Model model.C04_Reactor proof.C04_Any proof.C04_Check proof.C04_Proof proof.C04_DefaultProof proof.C04_Engine proof.C04_Prune proof.C04_Examples proof.C04_Object proof.C04_Chain proof.C04_Glue proof.C04_Template proof.C04_Fold proof.C04_Default proof.C04_Explicit proof.C04_DefaultEnd proof.C04_DefaultChain proof.C04_CompBt proof.C03_Spec proof.C04_Total proof.C04_TotalDefault proof.C04_TotalEnd proof.C04_TotalAny proof.C04_MonoMatch proof.C04_DefaultChainTotal proof.C04_DefaultNonneg proof.C04_Verified proof.C04_TotalExamples proof.C04_ObjectExamples.
+From SK Require Import model.C03_Order.
+From SK Require Import lib.Tok lib.LGraph model.C03_Model model.C04_Model model.C04_Reactor proof.C04_Any proof.C04_Check proof.C04_Proof proof.C04_DefaultProof proof.C04_Engine proof.C04_Prune proof.C04_Examples proof.C04_Object proof.C04_Chain proof.C04_Glue proof.C04_Template proof.C04_Fold proof.C04_Default proof.C04_Explicit proof.C04_DefaultEnd proof.C04_DefaultChain proof.C04_CompBt proof.C03_Spec proof.C04_Total proof.C04_TotalDefault proof.C04_TotalEnd proof.C04_TotalAny proof.C04_MonoMatch proof.C04_DefaultChainTotal proof.C04_DefaultNonneg proof.C04_Verified proof.C04_CompBtObject proof.C04_CompBtDefault proof.C04_TotalExamples proof.C04_ObjectExamples.
 Import ListNotations.
 Local Open Scope Z_scope.
 
@@ -664,3 +675,133 @@ Theorem C04_in_results_verified_default : forall (rematch : nat -> hostg -> molg
     In T' gs /\ regen_folded T' (if invert then H else G) (if invert then G else H) = true.
 Proof. exact chain_verified_default. Qed.
 Print Assumptions C04_in_results_verified_default.
+
+(** * comp / bt for the own templates at the level of the reactor OBJECT (its_list of a fresh reactor), both hydrogen modes; in the
+    default mode to the END of its_list: no kept mapping makes _explicit_h raise (they are monomorphisms by C06's comp_spec /
+    bt_spec, hence rule matches, C04_engine_match_is_rule_match + C04_any_match_explicit_h_total), and the stage keeps the folded
+    reaction (C04_explicit_h_keeps_reaction).  Same conditions as C04_own_{comp,bt}_{implicit,default}. *)
+Theorem C04_own_comp_implicit_object : forall (enum : list N -> list N -> list C06_Model.mapping) (rematch : nat -> hostg -> molg -> list C03_Model.mapping)
+    (core invert : bool) (G H : hostg),
+  pair_wfb G H = true -> no_explicit_H G = true ->
+  (core = true -> centre_carries (its_construct G H) = true) ->
+  forallb (fun p : N * mnode => 0 <=? m_hc (snd p)) (gnodes (dec_side iG C03_Model.eG (template core invert G H))) = true ->
+  oracle_ok enum (tr_host (if invert then H else G)) (tr_pat (dec_side iG C03_Model.eG (template core invert G H))) ->
+  (0 <? length (comps (tr_pat (dec_side iG C03_Model.eG (template core invert G H)))))%nat
+  && (length (comps (tr_pat (dec_side iG C03_Model.eG (template core invert G H)))) <? length (comps (tr_host (if invert then H else G))))%nat = false ->
+  ((length (comps (tr_host (if invert then H else G))) <? length (comps (tr_pat (dec_side iG C03_Model.eG (template core invert G H)))))%nat = true \/
+   id_separatingb (tr_host (if invert then H else G)) (tr_pat (dec_side iG C03_Model.eG (template core invert G H))) = true) ->
+  exists T0 : N, forall T : N, (T0 <= T)%N ->
+    exists (gs : list its) (Tt : its),
+      fst (read_its (api_engine enum) rematch (own_opts invert false (SMember 1%N) (Some T) false) (if invert then H else G)
+                    (template core invert G H, dec_side iG C03_Model.eG (template core invert G H), dec_side iH C03_Model.eH (template core invert G H)) fresh) = Some gs /\
+      In Tt gs /\ regen_exact Tt (if invert then H else G) (if invert then G else H) = true.
+Proof. exact own_comp_implicit_object. Qed.
+Print Assumptions C04_own_comp_implicit_object.
+
+Theorem C04_own_bt_implicit_object : forall (enum : list N -> list N -> list C06_Model.mapping) (rematch : nat -> hostg -> molg -> list C03_Model.mapping)
+    (core invert : bool) (G H : hostg),
+  pair_wfb G H = true -> no_explicit_H G = true ->
+  (core = true -> centre_carries (its_construct G H) = true) ->
+  forallb (fun p : N * mnode => 0 <=? m_hc (snd p)) (gnodes (dec_side iG C03_Model.eG (template core invert G H))) = true ->
+  oracle_ok enum (tr_host (if invert then H else G)) (tr_pat (dec_side iG C03_Model.eG (template core invert G H))) ->
+  ((0 <? length (comps (tr_pat (dec_side iG C03_Model.eG (template core invert G H)))))%nat
+   && (length (comps (tr_pat (dec_side iG C03_Model.eG (template core invert G H)))) <? length (comps (tr_host (if invert then H else G))))%nat = true \/
+   (length (comps (tr_host (if invert then H else G))) <? length (comps (tr_pat (dec_side iG C03_Model.eG (template core invert G H)))))%nat = true \/
+   id_separatingb (tr_host (if invert then H else G)) (tr_pat (dec_side iG C03_Model.eG (template core invert G H))) = true) ->
+  exists T0 : N, forall T : N, (T0 <= T)%N ->
+    exists (gs : list its) (Tt : its),
+      fst (read_its (api_engine enum) rematch (own_opts invert false (SMember 2%N) (Some T) false) (if invert then H else G)
+                    (template core invert G H, dec_side iG C03_Model.eG (template core invert G H), dec_side iH C03_Model.eH (template core invert G H)) fresh) = Some gs /\
+      In Tt gs /\ regen_exact Tt (if invert then H else G) (if invert then G else H) = true.
+Proof. exact own_bt_implicit_object. Qed.
+Print Assumptions C04_own_bt_implicit_object.
+
+Theorem C04_own_comp_default_object : forall (enum : list N -> list N -> list C06_Model.mapping) (rematch : nat -> hostg -> molg -> list C03_Model.mapping)
+    (core invert : bool) (G H : hostg),
+  pair_wfb G H = true -> mode_E G H = true ->
+  default_okb (if invert then H else G) (if invert then G else H) (template core invert G H) = true ->
+  (core = true -> centre_carries (its_construct G H) = true) ->
+  own_valence_okb core invert G H = true ->
+  forall (rc : its) (l r : molg), rule_of core invert G H = Some (rc, l, r) ->
+  oracle_ok enum (tr_host (substrate invert G H)) (tr_pat l) ->
+  (0 <? length (comps (tr_pat l)))%nat && (length (comps (tr_pat l)) <? length (comps (tr_host (substrate invert G H))))%nat = false ->
+  ((length (comps (tr_host (substrate invert G H))) <? length (comps (tr_pat l)))%nat = true \/
+   id_separatingb (tr_host (substrate invert G H)) (tr_pat l) = true) ->
+  exists T0 : N, forall T : N, (T0 <= T)%N ->
+    exists (gs : list its) (T' : its),
+      fst (read_its (api_engine enum) rematch (own_opts invert true (SMember 1%N) (Some T) false) (substrate invert G H) (rc, l, r) fresh) = Some gs /\
+      In T' gs /\ regen_folded T' (if invert then H else G) (if invert then G else H) = true.
+Proof. exact own_comp_default_object. Qed.
+Print Assumptions C04_own_comp_default_object.
+
+Theorem C04_own_bt_default_object : forall (enum : list N -> list N -> list C06_Model.mapping) (rematch : nat -> hostg -> molg -> list C03_Model.mapping)
+    (core invert : bool) (G H : hostg),
+  pair_wfb G H = true -> mode_E G H = true ->
+  default_okb (if invert then H else G) (if invert then G else H) (template core invert G H) = true ->
+  (core = true -> centre_carries (its_construct G H) = true) ->
+  own_valence_okb core invert G H = true ->
+  forall (rc : its) (l r : molg), rule_of core invert G H = Some (rc, l, r) ->
+  oracle_ok enum (tr_host (substrate invert G H)) (tr_pat l) ->
+  ((0 <? length (comps (tr_pat l)))%nat && (length (comps (tr_pat l)) <? length (comps (tr_host (substrate invert G H))))%nat = true \/
+   (length (comps (tr_host (substrate invert G H))) <? length (comps (tr_pat l)))%nat = true \/
+   id_separatingb (tr_host (substrate invert G H)) (tr_pat l) = true) ->
+  exists T0 : N, forall T : N, (T0 <= T)%N ->
+    exists (gs : list its) (T' : its),
+      fst (read_its (api_engine enum) rematch (own_opts invert true (SMember 2%N) (Some T) false) (substrate invert G H) (rc, l, r) fresh) = Some gs /\
+      In T' gs /\ regen_folded T' (if invert then H else G) (if invert then G else H) = true.
+Proof. exact own_bt_default_object. Qed.
+Print Assumptions C04_own_bt_default_object.
+
+(** * strategy comp in the strict_cc_count guard region: REFUTED (known findings *:comp:guard)
+
+    find_subgraph_mappings(strategy=comp) with strict_cc_count at its default returns NO match when the substrate has more
+    connected components than the pattern (C06: the documented guard of that parameter).  With a centre template and a
+    spectator molecule or ion this is the case for the reaction's own reactants: the identity is a valid match, the exhaustive
+    strategy and bt (which falls back to it) regenerate the reaction, comp returns an empty its_list.  Witness: CH3Br + OH- ->
+    CH3OH + Br- next to a spectator water, centre template, forwards; verified enumerator as VF2.  Not repaired (the behaviour is
+    the documented parameter; the reactor does not expose strict_cc_count); the oracle emits the key *:comp:guard exactly when
+    the strategy is comp, 0 < pcc < hcc and nothing was returned (5 keys: usp#51, hand:spectator-water centre both directions,
+    hand:intra-spectator centre backwards). *)
+Theorem C04_comp_guard_refuted : exists (G H : hostg) (rule : triple),
+  pair_wfb G H = true /\ no_explicit_H G = true /\ consistent_H (its_construct G H) = true /\
+  centre_carries (its_construct G H) = true /\ rule_of true false G H = Some rule /\
+  let host := substrate false G H in
+  let pat := pattern_of (snd (fst rule)) in
+  let enum := monos_on (tr_host host) (tr_pat pat) in
+  let its_under (s : sarg) := fst (read_its (api_engine enum) no_rematch (own_opts false false s None false) host rule fresh) in
+  match_okb host pat (id_map (node_ids pat)) = true /\
+  (length (comps (tr_pat pat)) < length (comps (tr_host host)))%nat /\
+  its_under (SStr [99; 111; 109; 112]%N) = Some [] /\
+  (exists T, its_under (SMember 0%N) = Some [T] /\ regen_exact T G H = true) /\
+  (exists T, its_under (SStr [98; 116]%N) = Some [T] /\ regen_exact T G H = true).
+Proof. exact comp_guard_refuted. Qed.
+Print Assumptions C04_comp_guard_refuted.
+
+(** * the _explicit_h stage in EVERY visiting order
+
+    The code iterates over a Python set when it pairs donors with recipients inside a hydrogen-transfer group; the executable
+    model [explicit_h] (and with it [regenerate], [explicit_all], [read_its]) visits them in sorted order.  C03's
+    [explicit_h_ord ord] is the same function with ANY duplicate-free listing [ord] of a group.  The two facts the default-mode
+    theorems of this file rest on hold for every such order: the stage keeps the folded reaction, and it does not raise (a
+    balanced pairing graph is balanced in any order: C03_explicitH_ord_crash_iff).  WHICH hydrogen goes to which recipient may
+    differ between orders (C03: ex_ord_changes_wiring); the decomposition in implicit-hydrogen normal form does not. *)
+Theorem C04_explicit_h_any_order_keeps_reaction : forall (ord : list N -> list N) (T T' : its) (ms : list (N * N)) (A B : hostg),
+  (forall l x, In x (ord l) <-> In x l) -> (forall l, NoDup l -> NoDup (ord l)) ->
+  wf_hostb A = true -> wf_hostb B = true -> foldable A -> foldable B -> closed A -> closed B ->
+  NoDup (node_ids T) ->
+  regen_exact T (h_to_implicit_host A) (h_to_implicit_host B) = true ->
+  explicit_h_ord ord T = Some (T', ms) ->
+  regen_folded T' A B = true.
+Proof. exact explicit_end_ord. Qed.
+Print Assumptions C04_explicit_h_any_order_keeps_reaction.
+
+Theorem C04_any_match_explicit_h_total_any_order : forall (A B : hostg) (tpl rc : its) (l r : molg) (host : hostg)
+    (y : C03_Model.mapping) (T : its),
+  pair_wf A B -> describes A B tpl -> default_okb A B tpl = true ->
+  synrule tpl true = Some (rc, l, r) -> wf_rcb rc = true ->
+  match_rcb host rc y = true -> glue host rc y = Some T -> valence_okb tpl rc = true ->
+  forall ord : list N -> list N,
+  (forall l0 x, In x (ord l0) <-> In x l0) -> (forall l0, NoDup l0 -> NoDup (ord l0)) ->
+  explicit_h_ord ord T <> None.
+Proof. exact any_match_total_ord. Qed.
+Print Assumptions C04_any_match_explicit_h_total_any_order.
